@@ -22,10 +22,12 @@ AsModel(b) ==
     [nodes |-> BNodes(b), edges |-> BEdges(b),
      cpd |-> [v \in BNodes(b) |-> [parents |-> b.parents[v],
                                    states |-> [x \in {v} \cup BParSet(b, v) |-> b.states[x]],
+                                   \* the cardinality the CPD DECLARES for every variable it mentions (normally the number of names)
+                                   dcard |-> [x \in {v} \cup BParSet(b, v) |-> Len(b.states[x])],
                                    tab |-> b.cpd[v].tab, den |-> b.cpd[v].den]]]
 
 MPa(m, v) == {e[1] : e \in {f \in m.edges : f[2] = v}}
-NColsM(c) == FoldFunction(LAMBDA p, acc : acc * Len(c.states[p]), 1, c.parents)
+NColsM(c) == FoldFunction(LAMBDA p, acc : acc * c.dcard[p], 1, c.parents)
 Abs(x) == IF x < 0 THEN -x ELSE x
 ColSumM(c, v, j) == FoldSet(LAMBDA i, acc : acc + c.tab[i][j], 0, 1..Len(c.states[v]))
 \* numpy.allclose(sum, 1, atol=0.01) with the default rtol=1e-5 (probed away from the boundary only)
@@ -36,7 +38,8 @@ Valid(m) ==
           /\ ToSet(m.cpd[v].parents) = MPa(m, v)
           /\ ColsOK(m.cpd[v], v)
           /\ \A p \in ToSet(m.cpd[v].parents) : p \in DOMAIN m.cpd =>
-                m.cpd[p].states[p] = m.cpd[v].states[p]          \* same cardinality and same names, same order
+                /\ m.cpd[p].states[p] = m.cpd[v].states[p]          \* same names, same order
+                /\ m.cpd[p].dcard[p] = m.cpd[v].dcard[p]            \* same declared cardinality
 
 Others(S, x) == S \ {x}
 SetCell(tab, i, j, val) == [tab EXCEPT ![i] = [tab[i] EXCEPT ![j] = val]]
@@ -50,6 +53,8 @@ Defects(m) ==
     \* the child's view lists the SAME state names of the parent in another order (a rotation)
     \cup {[kind |-> "state_order", v |-> e[2], p |-> e[1], k |-> 0] : e \in {f \in m.edges : Len(m.cpd[f[2]].states[f[1]]) >= 2}}
     \cup {[kind |-> "cardinality", v |-> e[2], p |-> e[1], k |-> 0] : e \in m.edges}
+    \* the child DECLARES one state more for a parent (more columns) while listing the parent's state names unchanged
+    \cup {[kind |-> "cardinality_only", v |-> e[2], p |-> e[1], k |-> 0] : e \in m.edges}
     \cup {[kind |-> "colsum", v |-> v, p |-> "", k |-> k] : v \in m.nodes, k \in {1, 4, 10}}
     \* two columns wrong with compensating errors (the table total is unchanged)
     \cup {[kind |-> "colsum_compensating", v |-> v, p |-> "", k |-> k] :
@@ -65,8 +70,13 @@ Inject(m, d) ==
       [] d.kind = "state_order" ->
             LET ss == m.cpd[d.v].states[d.p] IN
             [m EXCEPT !.cpd[d.v].states[d.p] = [i \in 1..Len(ss) |-> ss[(i % Len(ss)) + 1]]]
+      [] d.kind = "cardinality_only" ->
+            LET c == m.cpd[d.v]
+                c2 == [c EXCEPT !.dcard[d.p] = c.dcard[d.p] + 1]
+            IN [m EXCEPT !.cpd[d.v] = [c2 EXCEPT !.tab = [i \in 1..Len(c.tab) |-> [j \in 1..NColsM(c2) |-> IF i = 1 THEN c.den ELSE 0]]]]
       [] d.kind = "cardinality" ->   \* the parent gains a probability-zero state that its child does not know
             [m EXCEPT !.cpd[d.p].states[d.p] = Append(m.cpd[d.p].states[d.p], "extra"),
+                      !.cpd[d.p].dcard[d.p] = m.cpd[d.p].dcard[d.p] + 1,
                       !.cpd[d.p].tab = Append(m.cpd[d.p].tab, [j \in 1..NColsM(m.cpd[d.p]) |-> 0])]
       [] d.kind = "colsum_compensating" ->
             [m EXCEPT !.cpd[d.v].tab = SetCell(SetCell(m.cpd[d.v].tab, 1, 1, m.cpd[d.v].tab[1][1] + d.k), 1, 2, m.cpd[d.v].tab[1][2] - d.k)]
